@@ -3,6 +3,7 @@ import NutsModel.C12.PE
 import NutsModel.C12.Ecma
 import NutsModel.C12.Consumer
 import NutsModel.C12.Formats
+import NutsModel.C12.Registration
 import NutsModel.Facts.C12
 open Lean Nuts.Drv Nuts.C12 Nuts
 
@@ -275,6 +276,13 @@ def step (st : St) (j : Json) : St × List String :=
         | .err e => ("err:" ++ e, "-", "-")
         | .panic s => ("panic:" ++ s, "-", "-")
       (st, [s!"consumer next0={n0} other={rOther} f1={r1} next1={n1} again={rAgain} f2={r2} next2={n2} cm={cmS} v1={v1} v2={v2}"])
+  | "registration" =>
+    -- discovery validateRegistration (PE part) on the wallet of a match op; `cred.ID` = the credential view's top-level id
+    let idOf : Cred → Option String := fun c =>
+      match c.tree with
+      | .obj fs => (match objGet fs "id" with | some (.str s) => some s | _ => none)
+      | _ => none
+    (st, ["registration " ++ (validateRegistrationPE cfg (reOf st.re) idOf st.pd (walletOf st (jObj j "wallet"))).cls])
   | "formats" =>
     -- presenter.buildSubmission's format negotiation: node defaults (data: the real oauth.DefaultOpenIDSupportedFormats())
     -- ∩ verifier metadata ∩ definition format, then ChooseVPFormat
